@@ -141,12 +141,17 @@ Definition request_start (c : cache) (h : history) (name : text) (now timeout rn
 (* the time the coroutine sleeps until (unless notified earlier) *)
 Definition wake_at (r : req) : Z := Z.min (rq_next r) (rq_last r).
 
+(* async_update_records handles the address records of a batch last (after the C07 repair): an SRV record that follows them in the
+   same packet is seen first *)
+Definition addresses_last (news : list pyrec) : list pyrec :=
+  filter (fun r => negb (kind_eqb (p_kind r) KAddress)) news ++ filter (fun r => kind_eqb (p_kind r) KAddress) news.
+
 (* a batch of record updates reaches the listener (phase 1 cache c1); the coroutine is woken only if something changed *)
 Definition request_update (c1 : cache) (now : Z) (r : req) (news : list pyrec) : req * bool :=
   match rq_done r with
   | Some _ => (r, false)
   | None =>
-      let '(i', updated) := process_records c1 now (rq_info r) news in
+      let '(i', updated) := process_records c1 now (rq_info r) (addresses_last news) in
       ({| rq_info := i'; rq_next := rq_next r; rq_last := rq_last r; rq_delay := rq_delay r; rq_first := rq_first r;
           rq_forced := rq_forced r; rq_done := None |}, updated)
   end.
